@@ -11,6 +11,9 @@ P = "pregex.core.pre.Pregex."
 FUNCS = [P + n for n in ("optional", "indefinite", "one_or_more", "exactly", "at_least", "at_most", "at_least_at_most",
                          "__mul__", "__rmul__", "_quantify_conditional_group", "__get_group_on_quantify_rule",
                          "_get_type", "_is_repeatable", "__str__", "group")]
+# the class spellings (quantifiers.py): each proved to have the text of the method spelling, for all operands / bounds
+FUNCS += ["pregex.core.quantifiers." + c + ".__init__" for c in ("Optional", "Indefinite", "OneOrMore", "Exactly", "AtLeast", "AtMost",
+                                                                   "AtLeastAtMost")]
 
 
 def run(rep, tier):
